@@ -994,7 +994,7 @@ Proof.
     destruct (sf_hit sf c) eqn:E; [|reflexivity].
     exfalso. assert (existsb (sf_hit sf) cs = true) by (apply existsb_exists; exists c; auto). congruence.
 Qed.
-Lemma expect_body_norm sf cs : known_D28 sf cs = false -> expect_body sf cs = norm_body cs.
+Lemma expect_body_norm sf cs : reenc_hit sf cs = false -> expect_body sf cs = norm_body cs.
 Proof.
   intros H. exact (f_equal (fun n => match n with NComp b => b | _ => [] end) (expect_norm sf (NComp cs) H)).
 Qed.
@@ -1160,7 +1160,7 @@ Qed.
 
 (* without a D14 leak and without a D28 item the round trip of the model yields a tree equivalent to the input *)
 Theorem roundtrip_equiv sf cs :
-  wf cs = true -> known_D14 cs = false -> known_D28 sf cs = false ->
+  wf cs = true -> known_D14 cs = false -> reenc_hit sf cs = false ->
   exists out, roundtrip sf cs = Some out /\ eqv out cs.
 Proof.
   intros Hw Hd Hs. exists (expect_body sf cs). split; [apply roundtrip_exact; assumption|].
@@ -1209,7 +1209,7 @@ Qed.
 (* the unrestricted statement is false of the faithful model: the smallest D14 witness *)
 Definition witness_D14 : list node := [NComp [NComp [NMod 1 []]; NItems ICompType [2]]]%N.
 Theorem roundtrip_refuted_D14 :
-  wf witness_D14 = true /\ known_D14 witness_D14 = true /\ known_D28 [] witness_D14 = false /\
+  wf witness_D14 = true /\ known_D14 witness_D14 = true /\ reenc_hit [] witness_D14 = false /\
   exists out, roundtrip [] witness_D14 = Some out /\ ~ eqv out witness_D14.
 Proof.
   split; [reflexivity|]. split; [reflexivity|]. split; [reflexivity|].
@@ -1225,7 +1225,7 @@ Proof. split; [reflexivity|]. split; [reflexivity|]. vm_compute. reflexivity. Qe
 (* and the smallest D28 witness: one component-type item whose re-encoding differs *)
 Theorem roundtrip_refuted_D28 :
   let cs := [NItems ICompType [1]]%N in let sf := [(1, 2)]%N in
-  wf cs = true /\ known_D14 cs = false /\ known_D28 sf cs = true /\
+  wf cs = true /\ known_D14 cs = false /\ reenc_hit sf cs = true /\
   exists out, roundtrip sf cs = Some out /\ ~ eqv out cs.
 Proof.
   cbv zeta. split; [reflexivity|]. split; [reflexivity|]. split; [reflexivity|].
@@ -1243,7 +1243,9 @@ Proof.
   intros Ha Hd Hc Hv. apply andb_true_iff in Ha. destruct Ha as [_ Ha].
   apply andb_true_iff in Hd. destruct Hd as [_ Hw].
   destruct (known_D14 (c_in c)) eqn:E14; [discriminate Hc|].
-  destruct (known_D28 (c_sf c) (c_in c)) eqn:E28; [discriminate Hc|].
+  unfold quirk_classes in Hc.
+  destruct (reenc_hit (c_sf c) (c_in c)) eqn:E28.
+  { exfalso. cbn [app] in Hc. destruct (flat_map _ _) as [|k ks]; discriminate Hc. }
   rewrite (roundtrip_exact _ _ Hw E14) in Ha.
   destruct (c_obs c) as [| | |t v]; try discriminate Ha.
   apply nodes_eqb_eq in Ha. subst t. rewrite Hv. cbn [andb].
